@@ -47,7 +47,7 @@ pub fn check() -> Check {
     Check {
         id: "C11",
         level: "exploration",
-        rule: "trace batches draw a workload (tree shapes with yields, locks, joins, spawn trees, 'wide' shapes with more than 16 tasks; prog.rs programs over all primitive families), a PCT seed, depth 1-5 and 2-12 iterations; every execution from the 2nd on is analysed with the black-box priority model (order facts from decisions, flips explained only by yield / task creation / change point of the running task; minimum number of change points by interval stabbing <= depth-1; no task loses priority while not running); the run must perform exactly the requested iterations and two runs with the same seed must be identical. The rate batch uses fixed internal seeds: planted depth-1/2/3 bugs with n = 2..4 tasks, >= 4e4 iterations each, hit rate (after PCT's step estimate has settled) one-sided against 1/(n*k^(d-1)) with k = PCT's own estimate = max number of multi-choice decisions, alarm only if rate + 6.5 sigma < guarantee. Distinct = (workload, seed, depth) hash; non-trivial = a run with a multi-choice decision",
+        rule: "trace batches draw a workload (tree shapes with yields, locks, joins, spawn trees, 'wide' shapes with more than 16 tasks; prog.rs programs over all primitive families), a PCT seed, depth 1-5 and 2-12 iterations; every execution from the 2nd on is analysed with the black-box priority model (order facts from decisions, flips explained only by yield / task creation / change point of the running task; minimum number of change points by interval stabbing <= depth-1; no task loses priority while not running); the run must perform exactly the requested iterations and two runs with the same seed must be identical. The rate batch uses fixed internal seeds: planted depth-1/2/3 bugs with n = 2..4 tasks, >= 4e4 iterations each, hit rate (after PCT's step estimate has settled) one-sided against 1/(n*k^(d-1)) with k = PCT's own estimate = max number of multi-choice decisions, alarm only if rate + 6.5 sigma < guarantee. The positions batch (fixed seeds too) runs two yielding tasks at depth 2 and 3 and looks at the LAST multi-choice decision of every execution of maximal length k: whenever that decision is one at which a change point would be visible (running task offered, not yielding), it must sometimes be one (a preemption there is a depth-d bug like any other; alarm only if it never happens although >= 100 are expected). Distinct = (workload, seed, depth) hash; non-trivial = a run with a multi-choice decision",
         assumptions: &[
             "a white-box check of PCT's internal priorities (hook H1 of the design) is not possible without an accessor in the crate under test; only the black-box consequences are checked",
             "iteration 1 of a PCT run (the step-estimation run, no change points) is excluded from the priority analysis, as in the property statement",
@@ -72,6 +72,8 @@ pub fn check() -> Check {
             "rate_tests_depth1",
             "rate_tests_depth2",
             "rate_tests_depth3",
+            "position_tests",
+            "preemptions_at_the_last_multi_choice_step",
         ],
     }
 }
@@ -82,6 +84,7 @@ fn batches(t: Tier) -> Vec<Batch> {
         Batch::new("trace-prog", t.pick(4000, 80000), 100),
         Batch::new("trace-wide", t.pick(300, 6000), 20),
         Batch::new("rates", RATE_CONFIGS.len() as u64 * t.pick(1, 3), 1),
+        Batch::new("positions", POS_CONFIGS.len() as u64 * t.pick(1, 3), 1),
     ]
 }
 
@@ -385,20 +388,27 @@ pub struct Bug {
     pub n: usize,
     pub pre: usize,
     pub post: usize,
+    /// depth 3 only: the second change point must fall on the LAST multi-choice decision of the
+    /// longest execution (A does all but its last operation, then B all but its last, then A's
+    /// last, then B's last); pre / post are the operation counts of A and B
+    #[serde(default)]
+    pub tail: bool,
 }
 
 const RATE_CONFIGS: &[Bug] = &[
-    Bug { depth: 1, n: 2, pre: 2, post: 2 },
-    Bug { depth: 1, n: 3, pre: 2, post: 2 },
-    Bug { depth: 1, n: 4, pre: 1, post: 1 },
-    Bug { depth: 2, n: 2, pre: 2, post: 2 },
-    Bug { depth: 2, n: 3, pre: 2, post: 1 },
-    Bug { depth: 2, n: 3, pre: 4, post: 4 },
-    Bug { depth: 2, n: 4, pre: 1, post: 1 },
-    Bug { depth: 3, n: 2, pre: 1, post: 1 },
-    Bug { depth: 3, n: 3, pre: 1, post: 1 },
-    Bug { depth: 3, n: 3, pre: 2, post: 2 },
-    Bug { depth: 3, n: 4, pre: 1, post: 0 },
+    Bug { depth: 1, n: 2, pre: 2, post: 2, tail: false },
+    Bug { depth: 1, n: 3, pre: 2, post: 2, tail: false },
+    Bug { depth: 1, n: 4, pre: 1, post: 1, tail: false },
+    Bug { depth: 2, n: 2, pre: 2, post: 2, tail: false },
+    Bug { depth: 2, n: 3, pre: 2, post: 1, tail: false },
+    Bug { depth: 2, n: 3, pre: 4, post: 4, tail: false },
+    Bug { depth: 2, n: 4, pre: 1, post: 1, tail: false },
+    Bug { depth: 3, n: 2, pre: 1, post: 1, tail: false },
+    Bug { depth: 3, n: 3, pre: 1, post: 1, tail: false },
+    Bug { depth: 3, n: 3, pre: 2, post: 2, tail: false },
+    Bug { depth: 3, n: 4, pre: 1, post: 0, tail: false },
+    Bug { depth: 3, n: 2, pre: 3, post: 3, tail: true },
+    Bug { depth: 3, n: 2, pre: 2, post: 4, tail: true },
 ];
 
 const HIT: u32 = 0xB06;
@@ -410,6 +420,35 @@ fn bug_body(b: Bug) -> Body {
         let x = Arc::new(AtomicUsize::new(0));
         let y = Arc::new(AtomicUsize::new(0));
         let pad = Arc::new(AtomicUsize::new(0));
+        if b.tail {
+            // A = main (pre operations), B = the spawned thread (post operations), one scheduling
+            // point per operation. Hit iff A's first pre-1 operations precede B's first, B's first
+            // post-1 precede A's last, and A's last precedes B's last.
+            let saw_a = Arc::new(std::sync::atomic::AtomicBool::new(false));
+            let bb = {
+                let (x, y, saw_a) = (x.clone(), y.clone(), saw_a.clone());
+                move || {
+                    if x.load(SeqCst) == b.pre - 1 {
+                        saw_a.store(true, std::sync::atomic::Ordering::SeqCst);
+                    }
+                    for _ in 0..b.post.saturating_sub(2) {
+                        y.fetch_add(1, SeqCst);
+                    }
+                    if y.load(SeqCst) >= 1000 && saw_a.load(std::sync::atomic::Ordering::SeqCst) {
+                        mark(HIT);
+                    }
+                }
+            };
+            thread::spawn(bb);
+            for _ in 0..b.pre - 1 {
+                x.fetch_add(1, SeqCst);
+            }
+            // A's last operation (one read-modify-write, one scheduling point): succeeds only if B
+            // has done all but its last operation; B's final load then sees the marker
+            let _ = y.compare_exchange(b.post.saturating_sub(2), 1000, SeqCst, SeqCst);
+            let _ = pad;
+            return;
+        }
         match b.depth {
             1 => {
                 // hit iff the last worker performs its first operation after everybody else is done
@@ -558,6 +597,12 @@ fn run_rates(idx: u64, tier: Tier, out: &mut RunOut) {
     let row = json!({"bug": bug, "round": round, "fixed_seed": fixed, "k": k, "settled_at": settled, "iterations_counted": m, "hits": hits, "rate": (rate * 1e5).round() / 1e5, "guarantee": (g * 1e5).round() / 1e5, "alarm_below": ((g - Z * sigma) * 1e5).round() / 1e5});
     if std::env::var("VERIF_C11_DEBUG").is_ok() {
         eprintln!("{}", row);
+        if let Some(e) = counted.iter().find(|e| e.marks.contains(&HIT)) {
+            eprintln!("first hit: {:?}", e.decs.iter().map(|d| (d.n, d.current, d.chosen, d.yielding)).collect::<Vec<_>>());
+        }
+        if let Some(e) = counted.iter().find(|e| e.multi_choice() == k) {
+            eprintln!("first of length k: {:?} hit={}", e.decs.iter().map(|d| (d.n, d.current, d.chosen, d.yielding)).collect::<Vec<_>>(), e.marks.contains(&HIT));
+        }
     }
     if rate + Z * sigma < g {
         out.violation(
@@ -588,10 +633,116 @@ fn run_rates(idx: u64, tier: Tier, out: &mut RunOut) {
     }
 }
 
+// ---------------------------------------------------------------------------------------------
+// change-point positions: the last multi-choice step must be reachable
+// ---------------------------------------------------------------------------------------------
+
+/// (depth, rounds of A, rounds of B): A = main and B = the spawned thread alternate
+/// `fetch_add; yield_now` and end with one more `fetch_add`. Yields demote the running task for
+/// free, so executions of maximal length need no change point and every index up to k-1 is the
+/// position of a possible depth-2 bug.
+const POS_CONFIGS: &[(usize, usize, usize)] = &[(3, 2, 3), (3, 2, 2), (3, 1, 2), (2, 2, 2)];
+
+fn run_positions(idx: u64, tier: Tier, out: &mut RunOut) {
+    use shuttle::sync::atomic::{AtomicUsize, Ordering::SeqCst};
+    use shuttle::thread;
+    std::env::remove_var("SHUTTLE_RANDOM_SEED");
+    let (depth, ra, rb) = POS_CONFIGS[(idx as usize) % POS_CONFIGS.len()];
+    let fixed = derive(FIXED, "positions", idx);
+    let iters = tier.pick(40_000, 200_000) as usize;
+    let body: Body = Arc::new(move || {
+        let x = Arc::new(AtomicUsize::new(0));
+        let y = x.clone();
+        thread::spawn(move || {
+            for _ in 0..rb {
+                y.fetch_add(1, SeqCst);
+                thread::yield_now();
+            }
+            y.fetch_add(1, SeqCst);
+        });
+        for _ in 0..ra {
+            x.fetch_add(1, SeqCst);
+            thread::yield_now();
+        }
+        x.fetch_add(1, SeqCst);
+    });
+    let (ending, execs) = run_tapped(PctScheduler::new_from_seed(fixed, depth, iters), quiet_config(), body, true);
+    out.evals += execs.len() as u64;
+    let case = json!({"c11pos": idx, "tier": tier.name()});
+    if ending != Ending::Returned(iters) || execs.len() != iters {
+        out.violation("C11:iteration-count", format!("positions workload {:?}: asked for {} iterations, run ended {:?} after {} executions", (depth, ra, rb), iters, ending, execs.len()), case);
+        return;
+    }
+    let mc: Vec<usize> = execs.iter().map(|e| e.multi_choice()).collect();
+    let k = mc.iter().cloned().max().unwrap_or(0);
+    let settled = mc.iter().position(|m| *m == k).unwrap_or(0);
+    let counted = &execs[(settled + 1).max(1)..];
+    let mut candidates = 0u64;
+    let mut preempted = 0u64;
+    for e in counted {
+        out.decisions += e.decs.len() as u64;
+        if e.multi_choice() != k {
+            continue;
+        }
+        let last = match e.decs.iter().rev().find(|d| d.n > 1) {
+            Some(d) => d,
+            None => continue,
+        };
+        let vis = |d: &TapDec| d.n > 1 && d.current != 255 && d.current < 64 && (d.mask >> d.current) & 1 == 1 && !d.yielding;
+        let visible = vis(last);
+        // change points already spent before the last step: visible preemptions that are not
+        // explained by the creation of a task (a decision that offers a task for the first time)
+        let n_multi = e.decs.iter().filter(|d| d.n > 1).count();
+        let mut seen_mask = 0u64;
+        let mut spent = 0usize;
+        let mut multi_seen = 0usize;
+        for d in e.decs.iter() {
+            let fresh = d.mask & !seen_mask != 0;
+            seen_mask |= d.mask;
+            if d.n > 1 {
+                multi_seen += 1;
+                if multi_seen < n_multi && !fresh && vis(d) && d.chosen != d.current {
+                    spent += 1;
+                }
+            }
+        }
+        if visible && spent < depth - 1 {
+            candidates += 1;
+            if last.chosen != last.current {
+                preempted += 1;
+            }
+        }
+    }
+    out.count("position_tests", 1);
+    out.count("preemptions_at_the_last_multi_choice_step", preempted);
+    out.distinct.push(hash_debug(&("pos", idx, fixed)));
+    let row = json!({"positions_workload": {"depth": depth, "rounds_a": ra, "rounds_b": rb}, "fixed_seed": fixed, "k": k, "settled_at": settled, "executions_of_length_k_with_a_visible_last_step": candidates, "preempted_there": preempted});
+    if std::env::var("VERIF_C11_DEBUG").is_ok() {
+        eprintln!("{}", row);
+    }
+    if preempted == 0 && k > 1 && candidates as f64 / (k as f64 - 1.0) >= 100.0 {
+        out.violation(
+            format!("C11:last-step-never-a-change-point:d{}", depth),
+            format!(
+                "two yielding tasks ({} / {} rounds), PCT seed {} depth {}: in {} executions of maximal length k = {} the last multi-choice decision was one at which the running task could have been demoted, and it never was (about {:.0} expected if change points are placed over all k-1 steps): a depth-{} bug that needs the preemption there has hit probability 0 < 1/(n*k^(d-1))",
+                ra, rb, fixed, depth, candidates, k, candidates as f64 / (k as f64 - 1.0), depth
+            ),
+            case,
+        );
+    }
+    if out.sample.is_none() {
+        out.sample = Some(row);
+    }
+}
+
 fn run(batch: &str, idx: u64, seed: u64, tier: Tier) -> RunOut {
     let mut out = RunOut::default();
     if batch == "rates" {
         run_rates(idx, tier, &mut out);
+        return out;
+    }
+    if batch == "positions" {
+        run_positions(idx, tier, &mut out);
         return out;
     }
     let mut rng = Rng::new(seed);
@@ -614,6 +765,9 @@ fn replay(case: &Value) -> RunOut {
     } else if let Some(idx) = case.get("c11rate").and_then(|c| c.as_u64()) {
         let tier = if case.get("tier").and_then(|t| t.as_str()) == Some("thorough") { Tier::Thorough } else { Tier::Quick };
         run_rates(idx, tier, &mut out);
+    } else if let Some(idx) = case.get("c11pos").and_then(|c| c.as_u64()) {
+        let tier = if case.get("tier").and_then(|t| t.as_str()) == Some("thorough") { Tier::Thorough } else { Tier::Quick };
+        run_positions(idx, tier, &mut out);
     }
     out
 }
